@@ -11,6 +11,7 @@ import shutil
 import signal
 import subprocess
 import sys
+import tempfile
 import time
 from pathlib import Path
 
@@ -243,6 +244,49 @@ def run_cmd(argv, cwd, env, timeout=60, stdin=None):
             p.kill()
             out, err = b"", b""
         return -999, (out or b"").decode("utf-8", "replace"), (err or b"").decode("utf-8", "replace")
+
+
+_tmp_suffix = {}
+
+
+def tmp_suffix(bindir=None):
+    """What the subject appends to a target's name to make $3 (".redo.tmp" on the pinned tree).  Learned from the binary --
+    one throw-away build whose script reports its $3 -- so that a tree which merely calls its temporary files something
+    else is not taken for one that leaves them behind.  The properties only say "a temporary path beside the target"."""
+    if bindir is None:
+        if None in _tmp_suffix:
+            return _tmp_suffix[None]
+        _tmp_suffix[None] = tmp_suffix(build_subject())
+        return _tmp_suffix[None]
+    bindir = Path(bindir)
+    key = str(bindir)
+    if key in _tmp_suffix:
+        return _tmp_suffix[key]
+    memo = bindir / ".tmpsuffix"
+    if memo.exists():
+        _tmp_suffix[key] = memo.read_text()
+        return _tmp_suffix[key]
+    d = Path(tempfile.mkdtemp(prefix="tmpsfx.", dir=str(scratch_root())))
+    try:
+        (d / "p" / ".redo").mkdir(parents=True)
+        (d / "home").mkdir()
+        (d / "p" / "probe.do").write_text('printf %s "$3" > ../arg3\n')
+        env = base_env(bindir, d / "home")
+        env["REDO_LOG"] = "0"
+        rc, out, err = run_cmd([str(bindir / "redo"), "probe"], d / "p", env, timeout=60)
+        a3 = (d / "arg3").read_text() if (d / "arg3").exists() else ""
+        base = os.path.basename(a3)
+        if rc != 0 or not base.startswith("probe") or len(base) <= len("probe"):
+            raise MachineryError(f"cannot learn the name of $3 from the subject (rc={rc}, $3={a3!r}): {err[-300:]}")
+        sfx = base[len("probe"):]
+    finally:
+        shutil.rmtree(d, ignore_errors=True)
+    try:
+        memo.write_text(sfx)
+    except OSError:
+        pass
+    _tmp_suffix[key] = sfx
+    return sfx
 
 
 def make_jail(jail, bindir):
